@@ -184,11 +184,15 @@ func (b *binder) param(n int, typ *sqlType, col string) {
 		st.pnull[n-1] = true
 	case st.ptypes[n-1] == nil:
 		st.ptypes[n-1], st.pcols[n-1] = typ, col
-	case st.ptypes[n-1].text != typ.text:
-		fail("inconsistent types deduced for parameter $%d: %s (column %q) versus %s (column %q)",
+	case st.ptypes[n-1].text != typ.text && !(intFamily(st.ptypes[n-1]) && intFamily(typ)):
+		// PostgreSQL types $n from its first use, then looks for a cross-type operator: they only
+		// exist (without casts) between smallint and integer, in which case the first type is kept.
+		fail("parameter $%d is used with inconsistent types: %s (column %q) versus %s (column %q)",
 			n, st.ptypes[n-1].text, st.pcols[n-1], typ.text, col)
 	}
 }
+
+func intFamily(t *sqlType) bool { return t.kind == kInt2 || t.kind == kInt4 }
 
 // operand reads `$n` or a constant, to be stored in / compared to column ci.
 func (b *binder) operand(ci int) operand {
